@@ -1,8 +1,14 @@
     // ===== src/filter/bcj/sparc.rs =====
-    use crate::filter::bcj::verif_kani::bcj_group_roundtrip;
+    use crate::filter::bcj::verif_kani::{bcj_group_roundtrip, bcj_split_homomorphism};
     #[kani::proof]
     #[kani::unwind(10)]
     fn c11_bcj_sparc_group() { bcj_group_roundtrip::<8>(BCJFilter::new_sparc, 4, 0, 3); }
     #[kani::proof]
     #[kani::unwind(10)]
     fn c11_bcj_sparc_short() { bcj_group_roundtrip::<6>(BCJFilter::new_sparc, 4, 0, 3); }
+    #[kani::proof]
+    #[kani::unwind(14)]
+    fn c07_bcj_sparc_split_k7_enc() { bcj_split_homomorphism::<10>(BCJFilter::new_sparc, 4, 7, true); }
+    #[kani::proof]
+    #[kani::unwind(14)]
+    fn c07_bcj_sparc_split_k7_dec() { bcj_split_homomorphism::<10>(BCJFilter::new_sparc, 4, 7, false); }
